@@ -212,3 +212,51 @@ Theorem relative_parsed_HostOK dbg hp hpo hd bi ti b t r :
   mr_ok b t = true -> make_relative dbg b t = Some (Some r) ->
   parse_url dbg hp hpo hd None (Some b) r = POk t.
 Proof. intros HOK. exact (relative_parsed dbg hp hpo hd (HostOK_RT _ _ _ HOK) bi ti b t r). Qed.
+
+(* ---------- non-vacuity (host functions ex_hp / ex_hd of C02_AuthMain.v) ---------- *)
+From Coq Require Import String.
+Open Scope string_scope.
+
+(* both inputs are in the class, the pair of parse results is inside MR_ok, make_relative answers rs, and
+   (what the theorem says) joining rs to the base gives the target *)
+Definition ex_mr (bs ts rs : string) : bool :=
+  match ex_parse bs, ex_parse ts with
+  | POk b, POk t =>
+      nonfile_input (B bs) && nonfile_input (B ts) && mr_ok b t
+      && match make_relative true b t with
+         | Some (Some r) =>
+             list_eqb r (B rs)
+             && match parse_url true ex_hp ex_hp ex_hd None (Some b) r with POk v => url_eqb v t | _ => false end
+         | _ => false
+         end
+  | _, _ => false
+  end.
+
+Lemma rel_parsed_inhabited :
+  ex_mr "http://u@h.x:81/a/b/c?q" "HTTP:\\u@h.x:81\a\d\.\e#f" "../d/e#f" = true
+  /\ ex_mr "https://h/a/b" "https://h/a/b?x" "?x" = true
+  /\ ex_mr "a://u:p@h.x:81/x/y" "a://u:p@h.x:81/x/z\w?q" "z\w?q" = true
+  /\ ex_mr "a:///x/y" "a:///" "../" = true
+  /\ ex_mr "a:/x/y" "a:/z" "../z" = true.
+Proof. vm_compute. repeat split. Qed.
+
+(* ---------- the same for canonical records of any origin (C02's three hierarchical forms) ---------- *)
+Definition canon_hier_form (hp hpo : list N -> result host) (hd : host -> list N) (u : url) : Prop :=
+  (exists sch segs last q f, noauth_ok sch segs last q f /\ u = noauth_url sch (path_text segs last) q f)
+  \/ canon_auth hp hpo hd STNotSpecial u \/ canon_special hp hpo hd u.
+
+Lemma canon_hier_nonfile hp hpo hd u : canon_hier_form hp hpo hd u -> nonfile_form hp hpo hd u.
+Proof.
+  intros [(sch & segs & last & q & f & K & E)|[(sch & ui & h & pt & p & q & f & K & E)|(sch & ui & h & pt & p & q & f & K & Kp & E)]].
+  - exact (NF_noauth hp hpo hd u sch segs last q f K E).
+  - exact (NF_auth hp hpo hd u sch ui h pt p q f K E).
+  - exact (NF_special hp hpo hd u sch ui h pt p q f K Kp E).
+Qed.
+
+Theorem relative_canon_forms dbg hp hpo hd b t r : HostRT hp hpo hd ->
+  canon_hier_form hp hpo hd b -> canon_hier_form hp hpo hd t ->
+  mr_ok b t = true -> make_relative dbg b t = Some (Some r) ->
+  parse_url dbg hp hpo hd None (Some b) r = POk t.
+Proof.
+  intros HRT Fb Ft. exact (relative_forms dbg hp hpo hd HRT b t r (canon_hier_nonfile _ _ _ b Fb) (canon_hier_nonfile _ _ _ t Ft)).
+Qed.
